@@ -135,6 +135,7 @@ class FxBuilder(Builder):
         self.branch = ()
         self.frames = {}
         self._value_eq = None
+        self.discr_domain = {}
 
     def default_inline(self, fn):
         return fn.krate in self.crates and len(fn.body.blocks) <= self.max_blocks and fn.def_path not in self.stop
@@ -309,7 +310,7 @@ class FxBuilder(Builder):
                 e = e[1] if e[0] == "ref" else ("deref", e)
             elif k == "field":
                 name = ("#" + el[2]) if el[3] in ("tuple", "closure") else el[2]
-                if e[0] == "local" or (e[0] == "field" and _root(e)[0] == "local"):
+                if _root(e)[0] == "local":
                     e = ("field", e, name, el[1])
                 else:
                     e = self.field(e, name, el[1])
@@ -342,7 +343,7 @@ class FxBuilder(Builder):
             return self.ev_local(fr, pe[2])
         if pe[0] == "field":
             base = self._load_local(fr, pe[1])
-            return N(self.field(base, pe[2], pe[3]))
+            return N(self.field(base, pe[2], pe[3] if len(pe) > 3 else 0))
         if pe[0] == "downcast":
             return ("downcast", self._load_local(fr, pe[1]), pe[2])
         if pe[0] == "index":
@@ -415,7 +416,12 @@ class FxBuilder(Builder):
             return self.simp(N(("cast", kind, inner, self.facts.ty_str(rv[3]))))
         if k == "discr":
             pl = self.ev_place(fr, rv[1])
-            return self.simp(("discr", pl))
+            e = self.simp(("discr", pl))
+            if e[0] == "discr":
+                dom = self._discr_domain(fr, rv[1])
+                if dom is not None:
+                    self.discr_domain[e] = dom
+            return e
         if k == "agg":
             a = rv[1]
             ops = tuple(self.ev_operand(fr, o) for o in rv[2])
@@ -571,8 +577,12 @@ class FxBuilder(Builder):
                     if tb == t["else"]:
                         continue
                     order.append((tuple(vals), tb))
-                order.append(("else", t["else"]))
                 case_vals = tuple(int(v) for v, _tb in t["cases"])
+                dom = self.discr_domain.get(d)
+                if dom is None or not dom <= set(case_vals):
+                    order.append(("else", t["else"]))
+                if dom is not None:
+                    order = [(lab, tb) for lab, tb in order if lab == "else" or any(v in dom for v in lab)]
                 branches = {}
                 base_state = dict(fr.state)
                 states = []
@@ -612,6 +622,32 @@ class FxBuilder(Builder):
                 nodes.append(("unreachable", site))
                 break
         return nodes
+
+    def _discr_domain(self, fr, place):
+        """Set of discriminant values of the enum stored at `place` (None if unknown)."""
+        ti = fr.body.locals[place["l"]]
+        for el in place["p"]:
+            if el[0] == "field":
+                ti = el[4]
+            elif el[0] == "deref":
+                t = self.facts.types[ti]
+                if t["k"] not in ("ref", "ptr"):
+                    return None
+                ti = t["to"]
+            elif el[0] == "downcast":
+                continue
+            else:
+                return None
+        t = self.facts.types[ti]
+        if t["k"] != "adt":
+            return None
+        a = self.facts.adts.get(t["key"])
+        if not a or a["kind"] != "enum":
+            return None
+        vals = [v["discr"] for v in a["variants"]]
+        if any(v is None for v in vals):
+            return None
+        return frozenset(vals)
 
     def _is_arrayiter_header(self, fr, b):
         t = fr.body.blocks[b]["term"]
@@ -923,10 +959,16 @@ def tree_paths(nodes, limit=20000):
                     for lab in n[2]:
                         if lab != "else" and dv[1] in lab:
                             forced = lab
+                prior = choices.get(("known", dv)) if dv[0] != "const" else None
                 for lab, sub in n[2].items():
                     if forced is not None and lab != forced:
                         continue
+                    # the same expression (same memory versions) was already tested on this path: stay consistent
+                    newk = _constrain(prior, lab, n[4])
+                    if newk is None:
+                        continue
                     ch = dict(choices)
+                    ch[("known", dv)] = newk
                     ch[n[5]] = lab
                     rec(sub, 0, list(events) + [("branch", n[1], lab, n[3], n[4])], ch, depth,
                         [(seq, i + 1, depth)] + cont)
@@ -956,6 +998,29 @@ def tree_paths(nodes, limit=20000):
 
     rec(nodes, 0, [], {}, 0, [])
     return out
+
+
+def _constrain(prior, lab, case_vals):
+    """Combine what is known about a tested value with taking branch `lab`; None if infeasible.
+    Knowledge is ("in", frozenset) or ("notin", frozenset)."""
+    if lab == "else":
+        new = ("notin", frozenset(case_vals))
+    else:
+        new = ("in", frozenset(lab))
+    if prior is None:
+        return new
+    pk, ps = prior
+    nk, ns = new
+    if pk == "in" and nk == "in":
+        r = ps & ns
+        return ("in", r) if r else None
+    if pk == "in" and nk == "notin":
+        r = ps - ns
+        return ("in", r) if r else None
+    if pk == "notin" and nk == "in":
+        r = ns - ps
+        return ("in", r) if r else None
+    return ("notin", ps | ns)
 
 
 def resolve_phi(e, choices):
